@@ -55,7 +55,22 @@ def main():
         })
         rep.assumptions = list(rep.coverage['trusted_base'])
         # 3. property-specific: correspondence + oracle search
+        import fingerprint
+        drift = fingerprint.changed_for(pid, common.repo())
+        rep.coverage['modelled_source_files_changed_since_baseline'] = drift
         mod.run(rep, args.tier, build, replay=args.replay)
+        if drift and args.tier == 'quick' and not args.replay:
+            # the files the model was written from have changed: the model may no longer describe the code, so
+            # look harder before answering (two more passes with fresh seeds; counts of the last pass are reported)
+            passes = 1
+            for k in (1, 2):
+                if rep.failures:
+                    break
+                common.shift_seed(k)
+                mod.run(rep, args.tier, build, replay=None)
+                passes += 1
+            common.shift_seed(0)
+            rep.coverage['passes_after_source_drift'] = passes
     except Exception:
         tb = traceback.format_exc()
         print(tb)
